@@ -204,6 +204,13 @@ def run_values(spec, rec, lib):
     table = {}
     tmp = spec["scratch"]
     for i in range(spec["count"]):
+        if i == spec["count"] // 3:
+            # every kind of unrelated library activity once (interactive session that displays a document with other layout
+            # settings, odd files, failing builders ...): the serialization afterwards is still the frozen format
+            ndir = os.path.join(tmp, "provocations")
+            os.makedirs(ndir, exist_ok=True)
+            noise.provoke(lib, random.Random(spec["seed"]), ndir)
+            rec.count("provocation_rounds")
         if i % 7 == 3:
             poison(lib, rng, rec)
         if i % 40 == 11:
